@@ -57,8 +57,20 @@ def joinWith (sep : Str) : List Str → Str
   | [a] => a
   | a :: rest => a ++ sep ++ joinWith sep rest
 
-def natToStr (n : Nat) : Str := (toString n).toList
-def intToStr (i : Int) : Str := (toString i).toList
+def digitChar (d : Nat) : Char := Char.ofNat ('0'.toNat + d % 10)
+
+/-- decimal digits of `n`, most significant first (`fuel` ≥ number of digits) -/
+def natDigitsAux : Nat → Nat → Str → Str
+  | 0, _, acc => acc
+  | fuel + 1, n, acc =>
+    if n < 10 then digitChar n :: acc
+    else natDigitsAux fuel (n / 10) (digitChar (n % 10) :: acc)
+
+/-- Python `str(n)` for a natural number -/
+def natToStr (n : Nat) : Str := natDigitsAux (n + 1) n []
+
+/-- Python `str(i)` for an integer -/
+def intToStr (i : Int) : Str := if i < 0 then '-' :: natToStr i.natAbs else natToStr i.natAbs
 
 /-- value of a string of ASCII digits -/
 def digitsVal (s : Str) : Nat := s.foldl (fun acc c => acc * 10 + (c.toNat - '0'.toNat)) 0
